@@ -107,21 +107,27 @@ def write_replay(check_id, part_name, fail, seed, tier):
 
 
 def do_replay_raw(check_id, path):
-    """Run one replay file in this process; exit 0 pass / 1 fail / 2 error."""
+    """Run one replay file in this process; exit 0 pass / 1 fail / 2 error.
+    Parts that run on the real OS scheduler (Engine R) are not a pure function of the case:
+    they are tried up to 5 times and fail if any attempt fails."""
     mod = importlib.import_module("vt.checks." + check_id.lower())
     body = json.load(open(path))
+    part = [p for p in mod.PARTS if p.name == body["part"]]
+    tries = 5 if (part and "R (" in (part[0].engine or "")) else 1
     try:
         tree_info()
-        run_replay_inproc(mod, body["part"], body["case"])
-    except Violation as v:
-        print(f"replay fails: [{v.clause}] {v.msg}")
-        return 1
+        for attempt in range(tries):
+            try:
+                run_replay_inproc(mod, body["part"], body["case"])
+            except Violation as v:
+                print(f"replay fails{' (attempt %d)' % (attempt + 1) if tries > 1 else ''}: [{v.clause}] {v.msg}")
+                return 1
     except Exception:
         traceback.print_exc()
         return 2
     finally:
         cleanup_scratch()
-    print("replay passes")
+    print("replay passes" + (" (%d attempts on the real scheduler)" % tries if tries > 1 else ""))
     return 0
 
 
